@@ -3,6 +3,7 @@ package main
 import (
 	"fmt"
 	"go/constant"
+	"go/token"
 	"go/types"
 	"sort"
 	"strings"
@@ -512,10 +513,13 @@ func init() {
 							continue
 						}
 						facts := append(condFacts(path.block), path.extra...)
+						// the state read is known to be `name`: stated directly, or left over after the other states were
+						// excluded (`if s == Closed {..}; if s == HalfOpen {..}; if s != Open { return false }`)
 						stateIs := func(name string) bool {
+							possible := map[ssa.Value]map[string]bool{}
 							for _, ft := range facts {
 								b, ok := ft.Cond.(*ssa.BinOp)
-								if !ok || b.Op.String() != "==" || !ft.Truth {
+								if !ok || (b.Op != token.EQL && b.Op != token.NEQ) {
 									continue
 								}
 								x, y := b.X, b.Y
@@ -523,8 +527,25 @@ func init() {
 									x, y = y, x
 								}
 								cv, okc := constInt(y)
-								call, okcall := x.(*ssa.Call)
-								if okc && okcall && names[cv] == name && (isStaticCallTo(call, cur) || isStaticCallTo(call, get)) {
+								call, okcall := resolve(x).(*ssa.Call)
+								if !okc || !okcall || names[cv] == "" || !(isStaticCallTo(call, cur) || isStaticCallTo(call, get)) {
+									continue
+								}
+								if possible[call] == nil {
+									possible[call] = map[string]bool{}
+									for _, nm := range names {
+										possible[call][nm] = true
+									}
+								}
+								eq := (b.Op == token.EQL) == ft.Truth
+								for nm := range possible[call] {
+									if (eq && nm != names[cv]) || (!eq && nm == names[cv]) {
+										delete(possible[call], nm)
+									}
+								}
+							}
+							for _, set := range possible {
+								if len(set) == 1 && set[name] {
 									return true
 								}
 							}
